@@ -13,7 +13,7 @@ import (
 
 // xwOp: one call on an xflate.Writer
 type xwOp struct {
-	Kind byte // 'w', 'f', 'c'
+	Kind byte // 'w', 'f', 'c', 'o' (assign the exported statistics fields)
 	Data []byte
 	Mode int
 }
@@ -24,6 +24,8 @@ func (o xwOp) String() string {
 		return "w:" + vhlib.Hex(o.Data)
 	case 'f':
 		return fmt.Sprintf("f:%d", o.Mode)
+	case 'o':
+		return fmt.Sprintf("o:%d", o.Mode)
 	}
 	return "c"
 }
@@ -34,14 +36,16 @@ type xwCfg struct {
 }
 
 type xwResult struct {
-	NewErr  string
-	PerOp   []string
-	Sink    []byte
-	In, Out int64
-	Panic   string
-	Written []byte // concatenation of accepted writes
-	FlushAt []int  // sink length after each successful flush (any mode)
-	FlushIn []int  // bytes written before that flush
+	NewErr        string
+	PerOp         []string
+	Sink          []byte
+	In, Out       int64
+	Panic         string
+	Written       []byte // concatenation of accepted writes
+	FlushAt       []int  // sink length after each successful flush (any mode)
+	FlushIn       []int  // bytes written before that flush
+	InAdj, OutAdj int64  // what the caller added to InputOffset / OutputOffset by assigning them
+	SetOffsets    bool
 }
 
 // runXW drives a real xflate.Writer. sink==nil uses a plain buffer.
@@ -77,6 +81,13 @@ func runXW(cfg xwCfg, ops []xwOp, sink io.Writer, buf *bytes.Buffer) (res xwResu
 		case 'c':
 			err := xw.Close()
 			res.PerOp = append(res.PerOp, fmt.Sprintf("0:%s", vhlib.ErrClass(err)))
+		case 'o':
+			// "It is safe to set these values to any arbitrary value" (writer.go)
+			res.InAdj += int64(o.Mode) - xw.InputOffset
+			res.OutAdj += int64(o.Mode) - xw.OutputOffset
+			xw.InputOffset, xw.OutputOffset = int64(o.Mode), int64(o.Mode)
+			res.PerOp = append(res.PerOp, "0:nil")
+			res.SetOffsets = true
 		}
 		res.In, res.Out = xw.InputOffset, xw.OutputOffset
 	}
